@@ -217,7 +217,18 @@ func engJoin(e *Env) {
 			op2, c2 := Pick(r, ops), int64(r.Intn(7))
 			var q, col string
 			want := map[string]bool{}
-			switch r.Intn(4) {
+			switch r.Intn(5) {
+			case 4: // parents having ONE child that satisfies two conditions at once (one field indexed, one not)
+				col = au
+				if len(books) > 0 {
+					c2 = int64(Pick(r, books).k)
+				}
+				q = fmt.Sprintf(`query { %s(filter: {books: {pages: {%s: %d}, k: {%s: %d}}}) { k } }`, au, op, c, op2, c2)
+				for _, b := range books {
+					if b.alive && b.fk >= 0 && cmp(op, b.a, c) && cmp(op2, int64(b.k), c2) {
+						want[fmt.Sprint(b.fk)] = true
+					}
+				}
 			case 0: // parents having a child with pages op c
 				col = au
 				q = fmt.Sprintf(`query { %s(filter: {books: {pages: {%s: %d}}}) { k } }`, au, op, c)
